@@ -109,6 +109,10 @@ pub struct Scenario {
     /// layout of the `-p` value: bit 0 = trailing newline, bit 1 = an empty segment in the middle
     #[serde(default)]
     pub p_layout: u8,
+    /// how -n / -h are spelled: 0 = separate short options, 1 = combined (`-nh`), 2 = long
+    /// forms, 3 = short options after the FILE arguments
+    #[serde(default)]
+    pub flag_style: u8,
 }
 
 #[derive(Clone, Debug, Serialize, Deserialize)]
@@ -612,11 +616,33 @@ fn argv(sc: &Scenario) -> Vec<String> {
         a.push("-f".to_string());
         a.push("pats.txt".to_string());
     }
-    if sc.flag_n {
-        a.push("-n".into());
-    }
-    if sc.flag_h {
-        a.push("-h".into());
+    let mut late: Vec<String> = vec![];
+    match sc.flag_style {
+        1 if sc.flag_n && sc.flag_h => a.push("-nh".into()),
+        2 => {
+            if sc.flag_n {
+                a.push("--line-number".into());
+            }
+            if sc.flag_h {
+                a.push("--no-filename".into());
+            }
+        }
+        3 => {
+            if sc.flag_n {
+                late.push("-n".into());
+            }
+            if sc.flag_h {
+                late.push("-h".into());
+            }
+        }
+        _ => {
+            if sc.flag_n {
+                a.push("-n".into());
+            }
+            if sc.flag_h {
+                a.push("-h".into());
+            }
+        }
     }
     let cv = match sc.color {
         Color::Default => None,
@@ -635,6 +661,7 @@ fn argv(sc: &Scenario) -> Vec<String> {
     for (name, _) in &sc.files {
         a.push(name.clone());
     }
+    a.extend(late);
     a
 }
 
@@ -1088,6 +1115,7 @@ pub fn generate(seed: u64, cfg: &GenCfg) -> Scenario {
         sched: Sched::none(),
         pat_file_layout: if rng.chance(1, 3) { rng.below(8) as u8 } else { 0 },
         p_layout: if rng.chance(1, 4) { rng.below(4) as u8 } else { 0 },
+        flag_style: if rng.chance(1, 3) { rng.below(4) as u8 } else { 0 },
     };
     sc.sched = gen_sched(&mut rng, mode);
     sc
@@ -1258,7 +1286,10 @@ pub fn minimise(sc: &Scenario, class: &str, bins: &Bins, dir: &Path, known_crlf:
         for k in 0..7 {
             let mut c = cur.clone();
             match k {
-                5 => c.pat_file_layout = 0,
+                5 => {
+                    c.pat_file_layout = 0;
+                    c.flag_style = 0;
+                }
                 6 => c.p_layout = 0,
                 0 => c.flag_n = false,
                 1 => c.flag_h = false,
